@@ -1732,12 +1732,33 @@ theorem NewFrame.of {r r1 r' : R} (a1 : DNOk r r1) (a2 : InSeq r1.dec) {i : Info
       a1.base.acct, a1.base.len, a1.base.pos⟩, ⟨a1.step.idat, a1.step.rIdat, a1.step.evo⟩, a2,
     ⟨i, hi, rfl, hfc⟩, rfl, f3, f4, f5, f6, f7, f8, f9, f10⟩
 
+/-- the reader after a refused reservation (repair 0a2b38f, mod.rs:367-374): the old sub-frame is kept, marked
+    consumed (`current_interlace_info = None`, `consumed_and_flushed = true`), and no frame remains -/
+def R.ended (r : R) : R := { r with sub := { r.sub with cur := none, caf := true }, remaining := 0 }
+
+/-- the state right after `Reader::read_until_image_data` found the next data chunk and `Limits` refused its row
+    buffers: the stream decoder moved to the beginning of the data-chunk sequence (state `r1`), nothing of the new
+    (sub)frame was installed, and the reader is ended -/
+structure Refused (r r' : R) : Prop where
+  mid : ∃ r1, DNOk r r1 ∧ InSeq r1.dec ∧ r1.dec.info.isSome ∧ r' = r1.ended
+
+theorem Refused.fields {r r' : R} (h : Refused r r') :
+    r'.remaining = 0 ∧ r'.sub = { r.sub with cur := none, caf := true } ∧ r'.ub = r.ub ∧ r'.bpp = r.bpp ∧
+    r'.finished = r.finished ∧ r'.cached = r.cached ∧ r'.flags = r.flags ∧ r'.isReader = r.isReader ∧ r'.dead = r.dead ∧
+    r'.input = r.input ∧ r'.visible = r.visible ∧ r'.pendingBuf = r.pendingBuf ∧ r'.scratchLen = r.scratchLen := by
+  obtain ⟨r1, a1, _, _, rfl⟩ := h.mid
+  obtain ⟨f1, f2, f3, f4, f5, f6, f7, f8, f9, f10, f11, f12, f13⟩ := a1.frame.fields
+  refine ⟨rfl, ?_, f2, f11, f4, f5, f6, f7, f8, f9, f10, f12, f13⟩
+  show ({ r1.sub with cur := none, caf := true } : Sub) = _
+  rw [f1]
+
 /-- **`Reader::read_until_image_data`** between sequences: `info()` is present, `bpp_in_prediction`
-    never reaches `unreachable!()`; it fails with an error (before or after the new sub-frame was
-    set up) or succeeds at the beginning of a data-chunk sequence -/
+    never reaches `unreachable!()`; it fails with an error — of the stream decoder, or the `Limits` refusal of the
+    row buffers, after which nothing of the new sub-frame is installed and the reader is ended — or succeeds at
+    the beginning of a data-chunk sequence -/
 theorem readUntilImageData_spec (cfg : Cfg) (t : TCfg) (r : R) (hB : Base r) (hm : OutMode r) :
     match readUntilImageData cfg t r with
-    | (r', .error e) => e.isErr = true ∧ ((DNOk r r' ∧ OutMode r') ∨ (NewFrame r r' ∧ e = .err .limits "LimitsExceeded"))
+    | (r', .error e) => e.isErr = true ∧ ((DNOk r r' ∧ OutMode r') ∨ (Refused r r' ∧ e = .err .limits "LimitsExceeded"))
     | (r', .ok ()) => NewFrame r r' := by
   unfold readUntilImageData
   have hsp := rdReadUntilImageData_spec cfg (fuelOf r) r (fuelOf_ge r) hB hm
@@ -1753,18 +1774,16 @@ theorem readUntilImageData_spec (cfg : Cfg) (t : TCfg) (r : R) (hB : Base r) (hm
     | some i =>
       simp only [infoOf, hi]
       obtain ⟨hb, _⟩ := bpp_total i.color i.depth (a1.base.dinv.legal i hi).pair
-      rw [hb]
-      simp only
-      obtain ⟨f1, f2, f3, f4, f5, f6, f7, f8, f9, f10, _⟩ := a1.frame.fields
       have hfc : r.dec.readyIdat = false → i.fctl.isSome := by
         intro h
         obtain ⟨i', fc, h1, h2⟩ := a4 h
         rw [hi] at h1; cases h1; rw [h2]; rfl
-      rcases reserveBytes_cases ({ r1 with sub := Sub.new i, bpp := bytesPerPixel i.color i.depth, ub := UB.new } : R)
-        (outLineSize t i r1.flags (Sub.new i).width) with h | h
+      rcases reserveBytes_cases r1 (outLineSize t i r1.flags (Sub.new i).width) with h | h
       · rw [h]
-        exact ⟨rfl, Or.inr ⟨NewFrame.of a1 a2 hi hfc r1.dec.limit _ rfl, rfl⟩⟩
+        exact ⟨rfl, Or.inr ⟨⟨r1, a1, a2, by rw [hi]; rfl, rfl⟩, rfl⟩⟩
       · rw [h]
+        simp only
+        rw [hb]
         exact NewFrame.of a1 a2 hi hfc _ _ rfl
 
 /-- the invariant at the beginning of a (sub)frame, with `rem ≥ 1` frames remaining -/
@@ -1823,6 +1842,34 @@ theorem NewFrame.stable {r r' : R} (h : NewFrame r r') : Stable r r' := ⟨h.fla
 theorem DNOk.stable {r r' : R} (h : DNOk r r') : Stable r r' := by
   obtain ⟨_, _, _, _, _, f6, f7, f8, f9, _⟩ := h.frame.fields
   exact ⟨f6, f7, f8, f9⟩
+theorem Refused.stable {r r' : R} (h : Refused r r') : Stable r r' := by
+  obtain ⟨_, _, _, _, _, _, f6, f7, f8, f9, _⟩ := h.fields
+  exact ⟨f6, f7, f8, f9⟩
+
+/-- ending the reader (old sub-frame kept and marked consumed, no frame remaining) after the stream decoder moved
+    keeps the invariant, wherever the stream decoder stands -/
+theorem Inv.ended {t : TCfg} {r r1 : R} (hI : Inv t r) (hok : DNOk r r1) : Inv t r1.ended := by
+  obtain ⟨f1, f2, f3, f4, f5, f6, _⟩ := hok.frame.fields
+  obtain ⟨i, hi, hg⟩ := hI.info
+  obtain ⟨j, hj, hc, htr, hpl⟩ := hok.step.evo i hi
+  have hg1 := (hg.congr f1 (by rw [f2])).of_core hc
+  refine ⟨hok.base.congr rfl rfl rfl, ⟨j, hj, ⟨hg1.w1, hg1.wW, hg1.h1, hg1.hH, hg1.rowlen, hg1.iter, ?_, ?_⟩⟩,
+    hok.step.idat hI.idat, ?_, ?_, ?_, f2 ▸ hI.ub, ?_⟩
+  · unfold CurOk R.ended; simp only
+  · unfold PrevOk R.ended; simp only
+  · intro h; cases h
+  · intro _; exact Or.inl rfl
+  · intro _; exact ⟨rfl, rfl, rfl⟩
+  · intro snap hs
+    have hs' : r1.cached = some snap := hs
+    rw [f5] at hs'
+    obtain ⟨h1, i', hi', he⟩ := hI.cached snap hs'
+    rw [hi] at hi'; cases hi'
+    exact ⟨f6 ▸ h1, j, hj, he.step hc (htr hI.idat) hpl⟩
+
+theorem Inv.refused {t : TCfg} {r r' : R} (hI : Inv t r) (h : Refused r r') : Inv t r' := by
+  obtain ⟨r1, a1, _, _, rfl⟩ := h.mid
+  exact hI.ended a1
 
 /-- **advancing to the next (sub)frame** from a consumed and flushed one with frames remaining -/
 theorem advanceFrame_spec (cfg : Cfg) {t : TCfg} (r : R) (hI : Inv t r) (hcaf : r.sub.caf = true)
@@ -1844,7 +1891,7 @@ theorem advanceFrame_spec (cfg : Cfg) {t : TCfg} (r : R) (hI : Inv t r) (hcaf : 
     obtain ⟨a1, a2⟩ := hsp
     rcases a2 with ⟨a2, a3⟩ | ⟨a2, _⟩
     · exact ⟨a1, hI.dn a2 (fun h => by rw [hcaf] at h; cases h) (fun _ => Or.inr a3), a2.stable⟩
-    · exact ⟨a1, hnf a2, a2.stable⟩
+    · exact ⟨a1, hI.refused a2, a2.stable⟩
   | ok u =>
     obtain ⟨i, hi, hs, hfc⟩ := hsp.info
     exact ⟨hnf hsp, hsp.stable, hsp.remaining, by rw [hs]; exact subNew_caf i, i, hi, hfc hfl.1⟩
